@@ -167,6 +167,10 @@ def _build(node, names, v, cfg, depth=None, hints=None, mut=None):
         if cfg.floats == "sym":
             if v != v:
                 raise OutOfDomain()  # NaN: compared by class at layer 1
+            if k == "float" and v not in (float("inf"), float("-inf")) and (v >= 3.4028235677973366e38 or v <= -3.4028235677973366e38):
+                # a finite value that binary32 cannot hold is not a "float" datum (the encoder raises OverflowError:
+                # proved at layer 1, obligation float.overflow_only_when_unrepresentable)
+                raise OutOfDomain()
             return v
         for i, x in enumerate(FPOOL[:cfg.npool]):  # explicit chain: the result stays a concrete number
             if v == i:
